@@ -11,6 +11,7 @@ import (
 	"github.com/mimecast/dtail/internal/io/dlog"
 	"github.com/mimecast/dtail/internal/io/pool"
 	"github.com/mimecast/dtail/internal/protocol"
+	"github.com/mimecast/dtail/internal/vhook"
 )
 
 // Result returns a nicely formated result of the query from the group set.
@@ -163,15 +164,19 @@ func (*GroupSet) writeQueryFile(query *Query) error {
 	tmpQueryFile := fmt.Sprintf("%s.tmp", queryFile)
 	dlog.Common.Debug("Writing query file", queryFile)
 
+	vhook.At("outfile.step", "query.open")
 	fd, err := os.OpenFile(tmpQueryFile, os.O_CREATE|os.O_WRONLY|os.O_TRUNC, 0666)
 	if err != nil {
 		return err
 	}
 	defer fd.Close()
 
+	vhook.At("outfile.step", "query.write")
 	if _, err := fd.WriteString(query.RawQuery); err != nil {
 		return err
 	}
+	vhook.At("outfile.step", "query.rename")
+	defer vhook.At("outfile.step", "query.done")
 	return os.Rename(tmpQueryFile, queryFile)
 }
 
@@ -198,11 +203,13 @@ func (g *GroupSet) WriteResult(query *Query, finalResult bool) error {
 		}
 	}
 
+	vhook.At("outfile.step", "out.open")
 	fd, err := g.getOutfileFD(query)
 	if err != nil {
 		return err
 	}
 	defer fd.Close()
+	defer vhook.At("outfile.step", "out.return")
 
 	return g.resultWriteUnformatted(query, rows, fd, writeHeader, finalResult)
 }
@@ -233,16 +240,19 @@ func (g *GroupSet) resultWriteUnformatted(query *Query, rows []result, fd *os.Fi
 			break
 		}
 		for j, value := range r.values {
+			vhook.At("outfile.step", "row.value")
 			if _, err := fd.WriteString(value); err != nil {
 				return err
 			}
 			if j == lastColumn {
 				continue
 			}
+			vhook.At("outfile.step", "row.delimiter")
 			if _, err := fd.WriteString(protocol.CSVDelimiter); err != nil {
 				return err
 			}
 		}
+		vhook.At("outfile.step", "row.newline")
 		if _, err := fd.WriteString("\n"); err != nil {
 			return err
 		}
@@ -250,6 +260,8 @@ func (g *GroupSet) resultWriteUnformatted(query *Query, rows []result, fd *os.Fi
 
 	if !query.Outfile.AppendMode && finalResult {
 		tmpOutfile := fmt.Sprintf("%s.tmp", query.Outfile.FilePath)
+		vhook.At("outfile.step", "out.rename")
+		defer vhook.At("outfile.step", "out.renamed")
 		if err := os.Rename(tmpOutfile, query.Outfile.FilePath); err != nil {
 			os.Remove(tmpOutfile)
 			return err
@@ -261,16 +273,19 @@ func (g *GroupSet) resultWriteUnformatted(query *Query, rows []result, fd *os.Fi
 
 func (g *GroupSet) resultWriteUnformattedHeader(query *Query, fd *os.File, lastColumn int) (err error) {
 	for i, sc := range query.Select {
+		vhook.At("outfile.step", "header.field")
 		if _, err = fd.WriteString(sc.FieldStorage); err != nil {
 			return
 		}
 		if i == lastColumn {
 			continue
 		}
+		vhook.At("outfile.step", "header.delimiter")
 		if _, err = fd.WriteString(protocol.CSVDelimiter); err != nil {
 			return
 		}
 	}
+	vhook.At("outfile.step", "header.newline")
 	_, err = fd.WriteString("\n")
 	return
 }
